@@ -142,6 +142,7 @@ type Ctx struct {
 	curIdx   int64
 	inCall   atomic.Int64 // sequence number of call in flight (0 = none)
 	callSeq  atomic.Int64
+	cpuScale atomic.Int64 // goroutines a call runs at once (watchdog CPU limit multiplier)
 	start    time.Time
 	lastOp   atomic.Value
 }
@@ -652,9 +653,39 @@ func ReadPending(path string) (job string, idx int64, op string, input []byte, e
 	return
 }
 
-// watchdog: a call in flight for more than the per-call limit ends the shard with a
-// HANG record (exit 4); the driver re-runs the case alone before calling it a hang.
-var CallLimit = 20 * time.Second
+// watchdog: decides "this call does not return" on what the process has DONE, not on the wall
+// clock alone (on a loaded machine a legitimate call may be in flight for a long time):
+//
+//	busy hang     in flight > CallLimit  and the process has burnt > CPULimit of CPU time since the call began
+//	blocked hang  in flight > BlockedLimit and the process has used < 2 s of CPU time since the call began
+//	stall         in flight > StallLimit with neither: the machine is too loaded to tell (exit 5, inconclusive)
+//
+// A hang ends the shard with a HANG record (exit 4); the driver re-runs the case alone before
+// calling it a hang. CPULimit is a per-goroutine figure: the concurrent workloads (C18) multiply it
+// by the number of goroutines they start (SetCPUScale).
+var (
+	CallLimit    = 20 * time.Second
+	CPULimit     = 30 * time.Second
+	BlockedLimit = 180 * time.Second
+	StallLimit   = 1500 * time.Second
+)
+
+// ProcessCPU is the CPU time (user + system) the whole process has consumed.
+func ProcessCPU() time.Duration {
+	var ru syscall.Rusage
+	if syscall.Getrusage(syscall.RUSAGE_SELF, &ru) != nil {
+		return 0
+	}
+	return time.Duration(ru.Utime.Nano() + ru.Stime.Nano())
+}
+
+// SetCPUScale tells the watchdog how many goroutines the calls of this worker run at once.
+func (c *Ctx) SetCPUScale(n int) {
+	if n < 1 {
+		n = 1
+	}
+	c.cpuScale.Store(int64(n))
+}
 
 func (c *Ctx) watchdog() {
 	if FakeTime {
@@ -663,23 +694,49 @@ func (c *Ctx) watchdog() {
 	}
 	var last int64
 	var since time.Time
+	var cpu0 time.Duration
 	for {
 		time.Sleep(500 * time.Millisecond)
 		cur := c.inCall.Load()
 		if cur == 0 || cur != last {
-			last, since = cur, time.Now()
+			last, since, cpu0 = cur, time.Now(), ProcessCPU()
 			continue
 		}
-		if time.Since(since) > CallLimit {
-			op, _ := c.lastOp.Load().(string)
-			rec := map[string]any{"hang": true, "op": op, "job": c.curJob, "index": c.curIdx, "shard": c.Shard, "seconds": time.Since(since).Seconds()}
-			b, _ := json.Marshal(rec)
-			if c.OutDir != "" {
-				os.WriteFile(filepath.Join(c.OutDir, fmt.Sprintf("hang-%d.json", c.Shard)), b, 0o644)
-			}
-			fmt.Fprintf(os.Stderr, "WATCHDOG: call %s in flight for %v (job %s index %d)\n", op, time.Since(since), c.curJob, c.curIdx)
-			os.Exit(4)
+		wall := time.Since(since)
+		if wall <= CallLimit {
+			continue
 		}
+		used := ProcessCPU() - cpu0
+		scale := time.Duration(c.cpuScale.Load())
+		if scale < 1 {
+			scale = 1
+		}
+		kind := ""
+		switch {
+		case used > CPULimit*scale:
+			kind = "busy"
+		case wall > BlockedLimit && used < 2*time.Second:
+			kind = "blocked"
+		case wall > StallLimit:
+			kind = "stall"
+		default:
+			continue
+		}
+		op, _ := c.lastOp.Load().(string)
+		rec := map[string]any{"hang": kind != "stall", "kind": kind, "op": op, "job": c.curJob, "index": c.curIdx, "shard": c.Shard, "seconds": wall.Seconds(), "cpu_seconds": used.Seconds()}
+		b, _ := json.Marshal(rec)
+		if c.OutDir != "" {
+			name := "hang"
+			if kind == "stall" {
+				name = "stall"
+			}
+			os.WriteFile(filepath.Join(c.OutDir, fmt.Sprintf("%s-%d.json", name, c.Shard)), b, 0o644)
+		}
+		fmt.Fprintf(os.Stderr, "WATCHDOG(%s): call %s in flight for %v, %v of CPU time used since it began (job %s index %d)\n", kind, op, wall, used, c.curJob, c.curIdx)
+		if kind == "stall" {
+			os.Exit(5)
+		}
+		os.Exit(4)
 	}
 }
 
